@@ -376,31 +376,31 @@ def rule_det3(prog, rep, tier, scope=None):
             # global statement
             if isinstance(x, ast.Global) and enclosing_fn(x) is f or (isinstance(x, ast.Global) and x in node.body):
                 n += 1
-                rep.violation(Finding("DET-3", f.qualname, "global:%s" % ",".join(x.names), "`global %s` lets the function rebind module state that later calls read" % ",".join(x.names), loc(prog, x)))
+                rep.violation(Finding("DET-3", prog.owner_name(f), "global:%s" % ",".join(x.names), "`global %s` lets the function rebind module state that later calls read" % ",".join(x.names), loc(prog, x)))
             if isinstance(x, ast.Call) and enclosing_fn(x) is f:
                 # globals().update / globals()[k] = v handled below for subscripts
                 if isinstance(x.func, ast.Attribute) and x.func.attr in MUTATORS:
                     base = x.func.value
                     if isinstance(base, ast.Call) and isinstance(base.func, ast.Name) and base.func.id == "globals":
                         n += 1
-                        rep.violation(Finding("DET-3", f.qualname, "globals().%s" % x.func.attr,
+                        rep.violation(Finding("DET-3", prog.owner_name(f), "globals().%s" % x.func.attr,
                                               "%s writes the module's global namespace from inside a call; the names persist (and can shadow the module's own "
                                               "imports) for this and every later call in the process" % src(x, 60), loc(prog, x)))
                     elif isinstance(base, ast.Name):
                         b = prog.lookup(base.id, x)
                         if b[0] == "value":
                             n += 1
-                            rep.violation(Finding("DET-3", f.qualname, "module-object:%s.%s" % (base.id, x.func.attr),
+                            rep.violation(Finding("DET-3", prog.owner_name(f), "module-object:%s.%s" % (base.id, x.func.attr),
                                                   "%s mutates the module-level object %s, which outlives the call" % (src(x, 60), base.id), loc(prog, x)))
                         elif b[0] == "param" and b[1] is node and _mutable_default(node, base.id):
                             n += 1
-                            rep.violation(Finding("DET-3", f.qualname, "mutable-default:%s" % base.id,
+                            rep.violation(Finding("DET-3", prog.owner_name(f), "mutable-default:%s" % base.id,
                                                   "parameter %s has a mutable default that %s mutates; the default object is shared by all calls" % (base.id, src(x, 60)), loc(prog, x)))
                 elif isinstance(x.func, ast.Name) and x.func.id == "setattr" and x.args and isinstance(x.args[0], ast.Name):
                     b = prog.lookup(x.args[0].id, x)
                     if b[0] in ("func", "class", "module", "value"):
                         n += 1
-                        rep.violation(Finding("DET-3", f.qualname, "setattr:%s" % x.args[0].id, "%s writes an attribute of a long-lived object" % src(x, 60), loc(prog, x)))
+                        rep.violation(Finding("DET-3", prog.owner_name(f), "setattr:%s" % x.args[0].id, "%s writes an attribute of a long-lived object" % src(x, 60), loc(prog, x)))
             if isinstance(x, (ast.Assign, ast.AugAssign, ast.Delete)) and enclosing_fn(x) is f:
                 tgts = x.targets if isinstance(x, (ast.Assign, ast.Delete)) else [x.target]
                 for t in tgts:
@@ -408,10 +408,10 @@ def rule_det3(prog, rep, tier, scope=None):
                         base = t.value
                         if isinstance(base, ast.Call) and isinstance(base.func, ast.Name) and base.func.id == "globals":
                             n += 1
-                            rep.violation(Finding("DET-3", f.qualname, "globals()[]", "%s writes the module's global namespace" % src(x, 60), loc(prog, x)))
+                            rep.violation(Finding("DET-3", prog.owner_name(f), "globals()[]", "%s writes the module's global namespace" % src(x, 60), loc(prog, x)))
                         elif isinstance(base, ast.Name) and prog.lookup(base.id, x)[0] == "value":
                             n += 1
-                            rep.violation(Finding("DET-3", f.qualname, "module-object:%s[]" % base.id, "%s writes into a module-level object" % src(x, 60), loc(prog, x)))
+                            rep.violation(Finding("DET-3", prog.owner_name(f), "module-object:%s[]" % base.id, "%s writes into a module-level object" % src(x, 60), loc(prog, x)))
                     elif isinstance(t, ast.Attribute) and isinstance(t.value, ast.Name):
                         b = prog.lookup(t.value.id, x)
                         if b[0] == "func":
@@ -422,11 +422,11 @@ def rule_det3(prog, rep, tier, scope=None):
                                 rep.ob("DET-3", "%s: %s" % (f.qualname, construct), "accepted", loc(prog, x),
                                        "attribute of a closure created per activation of %s and initialised there before use" % target_fn.parent_fn.qualname)
                             else:
-                                rep.violation(Finding("DET-3", f.qualname, construct,
+                                rep.violation(Finding("DET-3", prog.owner_name(f), construct,
                                                       "function attribute %s.%s is state that survives the call" % (target_fn.qualname, t.attr), loc(prog, x)))
                         elif b[0] in ("class", "module"):
                             n += 1
-                            rep.violation(Finding("DET-3", f.qualname, "%s-attr:%s.%s" % (b[0], t.value.id, t.attr), "%s rebinds an attribute of a %s" % (src(x, 60), b[0]), loc(prog, x)))
+                            rep.violation(Finding("DET-3", prog.owner_name(f), "%s-attr:%s.%s" % (b[0], t.value.id, t.attr), "%s rebinds an attribute of a %s" % (src(x, 60), b[0]), loc(prog, x)))
         # memoisation
         for d in node.decorator_list:
             dn = d.func if isinstance(d, ast.Call) else d
@@ -437,7 +437,7 @@ def rule_det3(prog, rep, tier, scope=None):
                 if all(_evidently_immutable(r, node) for r in rets):
                     rep.ob("DET-3", "%s: @%s with immutable results" % (f.qualname, en), "holds", loc(prog, d), "")
                 else:
-                    rep.violation(Finding("DET-3", f.qualname, "memo:%s" % en,
+                    rep.violation(Finding("DET-3", prog.owner_name(f), "memo:%s" % en,
                                           "@%s caches a result that is not evidently immutable; a caller that mutates it changes what every later call returns" % en, loc(prog, d)))
     # module-level memo wrappers: name = lru_cache(...)(f)
     for m in prog.modules.values():
